@@ -16,7 +16,8 @@ ASSUMPTIONS = [
     'durations and periods from a small set; <= 4 iterations',
 ]
 INF = float('inf')
-DUR = {'n': [], 'i': [['INSTANT']], 1: [['D', 1]], 2: [['D', 2]], 3: [['D', 3]], 0.5: [['D', 0.5]]}
+DUR = {'n': [], 'i': [['INSTANT']], 1: [['D', 1]], 2: [['D', 2]], 3: [['D', 3]], 0.5: [['D', 0.5]],
+       0.1: [['D', 0.1]], 0.7: [['D', 0.7]], 1.1: [['D', 1.1]], 0.2: [['D', 0.2]]}
 
 
 def dur(d):
@@ -71,6 +72,16 @@ def cases(tier):
         for seq in seqs[:30]:
             out.append(program(kind, 0.5, [0.5 if d == 1 else d for d in seq], 0, None))
         out.append(program(kind, -1, ('n',), 0, None))
+        # a negative start time whose grid runs through 0
+        for period in (1, 2):
+            for seq in seqs[:40]:
+                out.append(program(kind, period, seq, -2, None))
+        # periods that have no exact binary representation, with bodies that last exactly one period
+        for period in (0.1, 0.7, 1.1):
+            for k in (2, 3, 4, 6):
+                for seq in ([period] * k, ['n'] + [period] * (k - 1), [period, 'i'] * (k // 2)):
+                    out.append(program(kind, period, seq, 0, None))
+                    out.append(program(kind, period, seq, 0.2, None))
     return out
 
 
@@ -82,8 +93,9 @@ def expected(meta, t_begin):
     ticks = []
     if kind == 'INTERVAL':
         t = t_begin
+        tick = t_begin
         for i, d in enumerate(durs):
-            tick = t_begin + (i + 1) * p
+            tick = tick + p          # the grid start + k*p, accumulated tick by tick (matters only for inexact floats)
             if t > tick:
                 return ticks, ('exceeded', t)
             ticks.append(tick)
